@@ -47,8 +47,8 @@ def rand_payload(rng):
     return rand_bytes(rng, 41, 400)
 
 
-def big_payload(rng, n):
-    if rng.random() < 0.5:
+def big_payload(rng, n, binary=None):
+    if binary or (binary is None and rng.random() < 0.5):
         return bytes(rng.getrandbits(8) for _ in range(n))
     unit = rand_bytes(rng, 1, 9)
     return (unit * (n // len(unit) + 1))[:n]
@@ -119,8 +119,10 @@ def make_case(rng, tier, mode=None, codec=None, size="small"):
         if size == "huge":
             # one partition whose plain message set exceeds 64 KiB (several snappy blocks)
             t, p = hot
-            recs = [(t, p, rand_payload(rng), big_payload(rng, rng.randint(19200, 20480))) for _ in range(3)] + \
-                   [(t, p, None, big_payload(rng, 9000))] + recs[:2]
+            # (two thirds of these sets are wholly incompressible: the compressor then has more than 64 KiB of OUTPUT to hand over too)
+            binary = True if rng.random() < 0.67 else None
+            recs = [(t, p, rand_payload(rng), big_payload(rng, rng.randint(19200, 20480), binary)) for _ in range(3)] + \
+                   [(t, p, None, big_payload(rng, 9000, binary))] + recs[:2]
             rng.shuffle(recs)
         if mode == "client":
             ops.append(T("produce_messages", [acks, rng.choice([0, 1, 30]), rng.choice([0, 500000000]),
